@@ -1,17 +1,25 @@
 (* C08 - Replies are paired with their requests and the client recovers after failures.
    The composed system is the executable client model (theories/Client.v instantiated with RSCP frames, the model of
    validateRequests and Rijndael-256/CBC, exactly as in theories/Session.v) over the honest reactive peer of
-   theories/PeerU.v: on every complete request the peer decrypts and decodes it, logs it (plog) and - depending on its fault
-   script, one behaviour per exchange: Answer | Silent | CloseBefore | Garbage tail (a rejected block followed by arbitrary
-   further blocks, e.g. a well-formed stale frame) - sends reply_of request on its own CBC chain, stays silent, closes,
-   or sends garbage. reply_of is ANY function whose replies can be encoded, are never empty and grant the authentication.
-   Sync s w is the invariant "in sync or closed": no connection and not authenticated, or nothing in flight, the peer open
-   and both cipher chains of client and peer equal. maxlen = 65600 bounds the fuel (one unit per Read).
-   No premise about codec or cipher is left: they are discharged in theories/C08Proofs.v. The behaviours Late, CloseInside,
-   BadCRC, Malformed and RefuseAuth are covered by the correspondence runs over real TCP, not by these theorems. *)
+   theories/PeerU.v: on every complete request the peer decrypts and decodes it, logs it (plog) and - by its fault script, one
+   behaviour per exchange - does one of
+     Answer         sends reply_of request on its own CBC chain
+     Refuse         sends deny_of request (a refused authentication)
+     Silent         sends nothing
+     Late           sends the reply only after the client's Read has timed out
+     CloseBefore    closes the connection instead of answering
+     CloseInside n  sends the first n mod length bytes of the encrypted reply (any cut, inside a cipher block or not), then closes
+     Bad g tail     sends a plaintext g that the receiver rejects when it has read all of it (badg: a garbled header block,
+                    a frame with a wrong checksum, a frame with a malformed payload - instances below), followed by arbitrary
+                    further bytes, e.g. a well-formed stale frame.
+   reply_of and deny_of are ANY functions whose values can be encoded and are never empty; reply_of grants the
+   authentication, deny_of does not. cSync s w is the invariant "in sync or closed": no connection and not authenticated, or
+   nothing in flight, the peer open and both cipher chains of client and peer equal (and the rest of the script well-formed).
+   maxlen = 65600 bounds the fuel (one unit per Read). No premise about codec or cipher is left: all are discharged in
+   theories/C08Proofs.v. The transport is in-order and reliable per connection (TCP); time is the model's clock. *)
 From Coq Require Import List NArith ZArith Bool Lia.
 Import ListNotations.
-Require Import Codec Rijndael RijP1 Cipher SCipher Client ClientReasm PeerU Session C08Proofs.
+Require Import Codec CRCFrame C04Proofs Frame Rijndael RijP1 Cipher SCipher Client ClientReasm PeerU Session C08Proofs C08Bad.
 Local Open Scope N_scope.
 
 Section C08.
@@ -26,48 +34,99 @@ Section C08.
   Hypothesis to_pos : (0 < conn_to /\ 0 < send_to /\ 0 < recv_to)%Z.
   Variable rbuf : nat.
   Hypothesis rbuf_pos : (0 < rbuf)%nat.
-  Variable reply_of : list message -> list message.
+  Variables reply_of deny_of : list message -> list message.
   Hypothesis reply_okm : forall ms, okm (reply_of ms).
+  Hypothesis deny_okm : forall ms, okm (deny_of ms).
   Hypothesis reply_nonempty : forall ms, reply_of ms <> [].
+  Hypothesis deny_nonempty : forall ms, deny_of ms <> [].
   Hypothesis auth_grants : c_auth_ok (reply_of (c_auth_req user pass)) = true.
+  Hypothesis auth_denies : c_auth_ok (deny_of (c_auth_req user pass)) = false.
 
-  Let ks := key_schedule (key_pad key).
-  Notation cpeer := (peer message (c_encode crc) (s_enc ks) (s_decP ks) (s_decI ks) iv0 decodeP reply_of gp).
-  Notation csend_multiple := (send_multiple message (c_encode crc) c_decode_step (s_enc ks) (s_dec ks) iv0 c_valid
-                                (c_auth_req user pass) c_auth_ok conn_to send_to recv_to rbuf (pstate message) cpeer).
+  Notation csend_multiple := (csend_multiple key user pass crc conn_to send_to recv_to rbuf reply_of deny_of).
+  Notation cdisconnect := (cdisconnect key crc reply_of deny_of).
+  Notation crun_res := (crun_res key user pass crc conn_to send_to recv_to rbuf reply_of deny_of).
+  Notation W := (world message (pstate message)).
+  Notation peer_log w := (plog message (est message (pstate message) w)).
+  Notation peer_script w := (script message (est message (pstate message) w)).
+  Notation connection w := (cur message (pstate message) w).
 
-  (* one call: Sync is preserved; the peer's log grows by nothing, the authentication request, the request, or both, in
-     that order (each request at most once, in call order); a successful call returns the reply to that very request *)
-  Theorem C08_call_spec : forall fuel s w ms s' w' r,
-    Sync message s w -> (maxlen < fuel)%nat -> (c_valid ms = true -> okm ms) ->
+  (* every history of calls {SendMultiple, Disconnect} against every fault script: the invariant holds at the end, the
+     peer's log is the concatenation, in call order, of what the single calls contributed - nothing, the authentication
+     request, the request, or both: every request reaches the peer at most once and in call order - and every successful
+     call returned the reply the peer produced for that very request, which is the last thing the peer received *)
+  Theorem C08_history : forall cs s (w : W), cSync s w -> Forall cokc cs ->
+    let '(s', w', rs) := crun_res s w cs in
+    cSync s' w' /\ exists ls, cpaired user pass reply_of deny_of cs rs ls /\ peer_log w' = peer_log w ++ concat ls.
+  Proof. exact (C08Proofs.C08_history key Bk user pass Bu Bp Hlen crc conn_to send_to recv_to to_pos rbuf rbuf_pos reply_of deny_of reply_okm deny_okm reply_nonempty deny_nonempty auth_grants auth_denies). Qed.
+
+  (* one call; a failed call leaves the client closed unless the failure is a refused request or a refused authentication *)
+  Theorem C08_call_spec : forall fuel s (w : W) ms s' w' r,
+    cSync s w -> (maxlen < fuel)%nat -> (c_valid ms = true -> okm ms) ->
     csend_multiple fuel s w ms = (s', w', r) ->
-    Sync message s' w' /\
-    (exists l, plog message (est message (pstate message) w') = plog message (est message (pstate message) w) ++ l /\
-               one_of message (c_auth_req user pass) l ms) /\
-    (forall x, r = Ok (list message) x -> x = reply_of ms /\
-       exists l, plog message (est message (pstate message) w') = plog message (est message (pstate message) w) ++ l ++ [ms]).
-  Proof. exact (C08Proofs.C08_call_spec key Bk user pass Bu Bp Hlen crc conn_to send_to recv_to to_pos rbuf rbuf_pos reply_of reply_okm reply_nonempty auth_grants). Qed.
+    cSync s' w' /\
+    (exists l, peer_log w' = peer_log w ++ l /\ one_of message (c_auth_req user pass) l ms) /\
+    (forall x, r = Ok (list message) x -> (x = reply_of ms \/ x = deny_of ms) /\ exists l, peer_log w' = peer_log w ++ l ++ [ms]) /\
+    (forall x, r = Err (list message) x ->
+       (connection w' = None /\ (x = EIO \/ x = EProto)) \/ x = EValidate \/ (x = EAuth /\ authed s' = false)).
+  Proof. exact (C08Proofs.C08_call_spec key Bk user pass Bu Bp Hlen crc conn_to send_to recv_to to_pos rbuf rbuf_pos reply_of deny_of reply_okm deny_okm reply_nonempty deny_nonempty auth_grants auth_denies). Qed.
 
-  (* recovery: from a closed state (after a timeout, a broken connection, a protocol error or Disconnect), against a peer
-     that is healthy for the next two exchanges, the call reconnects, authenticates again and returns the reply to this
-     very request *)
-  Theorem C08_recovery : forall fuel s w ms s' w' r,
-    Sync message s w -> cur message (pstate message) w = None -> (maxlen < fuel)%nat -> c_valid ms = true -> okm ms ->
-    (match script message (est message (pstate message) w) with [] => True | [Answer] => True | Answer :: Answer :: _ => True | _ => False end) ->
+  (* recovery: whenever the client is not authenticated - closed after a timeout, a broken connection, a protocol error or
+     Disconnect, or refused - and the peer answers the next two requests, the call reconnects where necessary, authenticates
+     again and returns the reply to this very request; the peer receives exactly the authentication request and the request *)
+  Theorem C08_recovery : forall fuel s (w : W) ms s' w' r,
+    cSync s w -> authed s = false -> (maxlen < fuel)%nat -> c_valid ms = true -> okm ms ->
+    healthy message 2 (est message (pstate message) w) ->
     csend_multiple fuel s w ms = (s', w', r) ->
-    r = Ok (list message) (reply_of ms) /\
-    plog message (est message (pstate message) w') = plog message (est message (pstate message) w) ++ [c_auth_req user pass; ms] /\
-    Sync message s' w'.
-  Proof. exact (C08Proofs.C08_recovery key Bk user pass Bu Bp Hlen crc conn_to send_to recv_to to_pos rbuf rbuf_pos reply_of reply_okm reply_nonempty auth_grants). Qed.
+    r = Ok (list message) (reply_of ms) /\ peer_log w' = peer_log w ++ [c_auth_req user pass; ms] /\ cSync s' w' /\ authed s' = true.
+  Proof. exact (C08Proofs.C08_recovery key Bk user pass Bu Bp Hlen crc conn_to send_to recv_to to_pos rbuf rbuf_pos reply_of deny_of reply_okm deny_okm reply_nonempty deny_nonempty auth_grants auth_denies). Qed.
+
+  (* an authenticated client whose peer answers the next request gets exactly that answer and nothing else is sent *)
+  Theorem C08_steady : forall fuel s (w : W) ms s' w' r,
+    cSync s w -> authed s = true -> (maxlen < fuel)%nat -> c_valid ms = true -> okm ms ->
+    healthy message 1 (est message (pstate message) w) ->
+    csend_multiple fuel s w ms = (s', w', r) ->
+    r = Ok (list message) (reply_of ms) /\ peer_log w' = peer_log w ++ [ms] /\ cSync s' w' /\ authed s' = true.
+  Proof. exact (C08Proofs.C08_steady key Bk user pass Bu Bp Hlen crc conn_to send_to recv_to to_pos rbuf rbuf_pos reply_of deny_of reply_okm deny_okm reply_nonempty deny_nonempty auth_grants auth_denies). Qed.
+
+  (* Disconnect closes, tells the peer nothing, and leaves the client ready for C08_recovery *)
+  Theorem C08_disconnect : forall s (w : W) s' w', cSync s w -> cdisconnect s w = (s', w') ->
+    cSync s' w' /\ connection w' = None /\ authed s' = false /\ peer_log w' = peer_log w /\ peer_script w' = peer_script w.
+  Proof. exact (C08Proofs.C08_disconnect key Bk user pass Bu Bp Hlen crc conn_to send_to recv_to to_pos rbuf rbuf_pos reply_of deny_of reply_okm deny_okm reply_nonempty deny_nonempty auth_grants auth_denies). Qed.
 End C08.
 
-(* the same two theorems, and the per-behaviour exchange lemma, for every codec/cipher satisfying the interface *)
-Definition C08_exchange_generic := @PeerU.exchange.
+(* rejected plaintexts the script may contain: 32 zero bytes (no magic), a checksummed frame with one checksum bit flipped,
+   a frame whose payload is not a sequence of items *)
+Theorem C08_bad_instances : PeerU.badg message c_verdict maxlen gp /\ PeerU.badg message c_verdict maxlen bad_crc_frame /\
+                            PeerU.badg message c_verdict maxlen bad_payload_frame.
+Proof. exact (conj badg_gp (conj badg_bad_crc badg_bad_payload)). Qed.
 
-(* non-vacuity: an encodable reply function exists (here: answer everything with a level 10 grant) and the configured
-   authentication request is valid and encodable *)
+(* ... and, in general (from C04): every checksummed frame with zero padding whose timestamp, payload or checksum field is altered
+   by a burst of at most 32 bits or by two bits anywhere *)
+Theorem C08_bad_crc : forall sec nsec ms e_ts e_pay e_crc padding,
+  alteration_ok sec nsec ms e_ts e_pay e_crc padding -> all_zero padding = true -> (length padding < 32)%nat ->
+  (burst32 (altered_bits e_ts e_pay e_crc) \/ two_bits (altered_bits e_ts e_pay e_crc)) ->
+  PeerU.badg message c_verdict maxlen (xor_bytes (valid_frame sec nsec ms padding) (alteration e_ts e_pay e_crc padding)).
+Proof. exact C08Bad.badg_altered. Qed.
+
+(* non-vacuity: the initial state with a script that uses every behaviour satisfies the invariant; encodable reply functions
+   exist (grant level 10 / refuse with level 0); the configured authentication request is valid *)
+Definition demo_script : list (behaviour) :=
+  [Answer; Refuse; Silent; Late; CloseBefore; CloseInside 45; Bad gp (repeat 7 64); Bad bad_crc_frame []; Bad bad_payload_frame []; Answer; Answer].
 Example C08_nonvacuous :
-  okm [Msg 8388609 3 (GU8 10)] /\ c_auth_ok [Msg 8388609 3 (GU8 10)] = true /\ c_valid (c_auth_req [117] [112]) = true.
-Proof. split; [split; [repeat constructor; cbn; auto; lia|unfold WireProofs.fits; vm_compute; reflexivity]|split; vm_compute; reflexivity]. Qed.
+  cSync (init_state iv0)
+        (init_world message (pstate message)
+           {| p_enc := iv0; p_dec := iv0; inflight := []; delayed := []; closed := false; script := demo_script; plog := [] |} 4) /\
+  okm [Msg 8388609 3 (GU8 10)] /\ c_auth_ok [Msg 8388609 3 (GU8 10)] = true /\
+  okm [Msg 8388609 3 (GU8 0)] /\ c_auth_ok [Msg 8388609 3 (GU8 0)] = false /\
+  c_valid (c_auth_req [117] [112]) = true.
+Proof.
+  split.
+  - split; [|reflexivity]. cbn [est init_world script demo_script].
+    repeat (apply Forall_cons; [first [exact I | exact badg_gp | exact badg_bad_crc | exact badg_bad_payload]|]). apply Forall_nil.
+  - assert (O : forall n, n < 256 -> okm [Msg 8388609 3 (GU8 n)]).
+    { intros n Hn. split; [repeat constructor; cbn; auto; lia|unfold WireProofs.fits; vm_compute; reflexivity]. }
+    split; [apply O; lia|]. split; [reflexivity|]. split; [apply O; lia|]. split; reflexivity.
+Qed.
 
-Print Assumptions C08_call_spec. Print Assumptions C08_recovery. Print Assumptions C08_exchange_generic.
+Print Assumptions C08_history. Print Assumptions C08_call_spec. Print Assumptions C08_recovery. Print Assumptions C08_steady.
+Print Assumptions C08_disconnect. Print Assumptions C08_bad_instances. Print Assumptions C08_bad_crc.
